@@ -1221,13 +1221,112 @@ def m_read_exact(ip, c, a):
     return res_ok(UNIT)
 def m_into_future(ip, c, a): return a[0]
 def m_unsize_ident(ip, c, a): return a[0]
+# ---- more String / str surface (concrete strings; symbolic receivers are unsupported = inconclusive, never a pass)
+def _conc(ip, v, what):
+    s = val_of_strlike(v)
+    if is_sym(s): raise Unsupported(what + " of symbolic string")
+    return s
+def _byte_to_char_index(s, n, what):
+    b = s.encode()
+    if n > len(b): raise Panic("%s: byte index %d is out of bounds" % (what, n))
+    try: return len(b[:n].decode())
+    except UnicodeDecodeError: raise Panic("assertion failed: self.is_char_boundary(new_len)")
+def m_string_truncate(ip, c, a):
+    cell = a[0].cell; s = _conc(ip, cell.v, 'truncate'); n = a[1]
+    if is_sym(n): raise Unsupported("symbolic truncate length")
+    if n <= len(s.encode()): cell.v = s[:_byte_to_char_index(s, n, 'truncate')]
+    return UNIT
+def m_is_char_boundary(ip, c, a):
+    s = _conc(ip, a[0], 'is_char_boundary'); n = a[1]; b = s.encode()
+    if n == 0 or n == len(b): return True
+    if n > len(b): return False
+    return (b[n] & 0xC0) != 0x80
+def m_string_push(ip, c, a):
+    cell = a[0].cell; ch = a[1]
+    cell.v = sconcat([cell.v, ch if isinstance(ch, str) else T('(str.from_code %s)', 'String', ch.s)]); return UNIT
+def m_string_pop(ip, c, a):
+    cell = a[0].cell; s = _conc(ip, cell.v, 'pop')
+    if s == '': return OPT_NONE()
+    cell.v = s[:-1]; return opt_some(s[-1])
+def m_string_clear(ip, c, a): a[0].cell.v = ''; return UNIT
+def m_string_insert_str(ip, c, a):
+    cell = a[0].cell; s = _conc(ip, cell.v, 'insert_str'); i = _byte_to_char_index(s, a[1], 'insert_str'); cell.v = s[:i] + _conc(ip, a[2], 'insert_str') + s[i:]; return UNIT
+def m_str_find(ip, c, a):
+    s = _conc(ip, a[0], 'find'); p = a[1] if isinstance(a[1], str) else _conc(ip, a[1], 'find')
+    i = s.find(p)
+    return OPT_NONE() if i < 0 else opt_some(len(s[:i].encode()))
+def m_str_rfind(ip, c, a):
+    s = _conc(ip, a[0], 'rfind'); p = a[1] if isinstance(a[1], str) else _conc(ip, a[1], 'rfind')
+    i = s.rfind(p)
+    return OPT_NONE() if i < 0 else opt_some(len(s[:i].encode()))
+def m_str_split_once(ip, c, a):
+    r = split_once(ip, val_of_strlike(a[0]), val_of_strlike(a[1]))
+    return OPT_NONE() if r is None else opt_some(Agg('tuple', None, [Cell(r[0]), Cell(r[1])]))
+def m_strip_prefix(ip, c, a):
+    s = val_of_strlike(a[0]); p = val_of_strlike(a[1])
+    if not is_sym(s) and not is_sym(p): return opt_some(s[len(p):]) if s.startswith(p) else OPT_NONE()
+    if ip.branch(m_starts_with(ip, c, a)):
+        r = ip.fresh('String', 'sp', record=False); ip.solver.add("(= %s (str.++ %s %s))" % (smt_str(s), smt_str(p), r.s)); inherit_facts(ip, s, r); return opt_some(r)
+    return OPT_NONE()
+def m_strip_suffix(ip, c, a):
+    s = val_of_strlike(a[0]); p = val_of_strlike(a[1])
+    if not is_sym(s) and not is_sym(p): return opt_some(s[:len(s) - len(p)]) if s.endswith(p) else OPT_NONE()
+    if ip.branch(m_ends_with(ip, c, a)):
+        r = ip.fresh('String', 'ss', record=False); ip.solver.add("(= %s (str.++ %s %s))" % (smt_str(s), r.s, smt_str(p))); inherit_facts(ip, s, r); return opt_some(r)
+    return OPT_NONE()
+def m_trim_start(ip, c, a):
+    s = val_of_strlike(a[0])
+    if not is_sym(s): return s.lstrip()
+    return _strip_prefix_char(ip, s, ' ')
+def m_trim_end(ip, c, a):
+    s = val_of_strlike(a[0])
+    if not is_sym(s): return s.rstrip()
+    return _strip_suffix_char(ip, s, ' ')
+def m_trim2(ip, c, a):
+    s = val_of_strlike(a[0])
+    if not is_sym(s): return s.strip()
+    # symbolic printable text: only spaces can be trimmed (tabs / newlines are excluded by the 'printable' fact)
+    for q in parts_of(s):
+        if not isinstance(q, str) and 'printable' not in ip.sfacts.get(q.s, ()): raise Unsupported("trim of unconstrained symbolic string")
+    return _strip_prefix_char(ip, _strip_suffix_char(ip, s, ' '), ' ')
+def m_to_case(upper):
+    def f(ip, c, a):
+        s = _conc(ip, a[0], 'case conversion'); return s.upper() if upper else s.lower()
+    return f
+def m_split_whitespace(ip, c, a):
+    s = _conc(ip, a[0], 'split_whitespace'); return Agg('VecIntoIter', None, [Cell([Cell(x) for x in s.split()]), Cell(0)])
+def m_lines(ip, c, a):
+    s = _conc(ip, a[0], 'lines'); return Agg('VecIntoIter', None, [Cell([Cell(x) for x in s.splitlines()]), Cell(0)])
+def m_char_indices(ip, c, a):
+    s = _conc(ip, a[0], 'char_indices'); out = []; off = 0
+    for ch in s: out.append(Cell(Agg('tuple', None, [Cell(off), Cell(ch)]))); off += len(ch.encode())
+    return Agg('VecIntoIter', None, [Cell(out), Cell(0)])
+def m_str_get_range(ip, c, a):
+    try: return opt_some(m_str_index_range(ip, c, a))
+    except Panic: return OPT_NONE()
+def m_char_len_utf8(ip, c, a): return len(a[0].encode()) if isinstance(a[0], str) else 1
+def m_char_pred(fn):
+    def f(ip, c, a):
+        ch = unref(a[0])
+        if not isinstance(ch, str): raise Unsupported("char predicate on symbolic char")
+        return fn(ch)
+    return f
 def install13(ip):
     P = lambda rx, f: (re.compile(rx), f)
     ip.pattern_models = [
         P(r'^Box::pin$|^Box::<.*>::pin$', m_box_pin), P(r'^Pin::<.*>::new_unchecked$|^Pin::new_unchecked$|^Pin::<.*>::new$|^Pin::new$', m_pin_new_unchecked),
         P(r'^Pin::<.*>::as_mut$|^Pin::as_mut$', m_pin_as_mut), P(r'^Pin::<.*>::get_mut$|^Pin::get_mut$|^Pin::<.*>::get_unchecked_mut$|^Pin::get_unchecked_mut$', m_pin_get_mut),
         P(r'^Waker::noop$', m_waker_noop), P(r'^Context::<.*>::from_waker$|^Context::from_waker$', m_context_from_waker),
-        P(r' as Future>::poll$', m_future_poll), P(r'as (std::io::)?Write>::write_all$', m_write_all), P(r'as (std::io::)?Read>::read_exact$', m_read_exact), P(r' as IntoFuture>::into_future$', m_into_future),
+        P(r' as Future>::poll$', m_future_poll),
+        P(r'^String::truncate$', m_string_truncate), P(r'impl str>::is_char_boundary$', m_is_char_boundary), P(r'^String::push$', m_string_push), P(r'^String::pop$', m_string_pop),
+        P(r'^String::clear$', m_string_clear), P(r'^String::insert_str$', m_string_insert_str), P(r'impl str>::find$', m_str_find), P(r'impl str>::rfind$', m_str_rfind),
+        P(r'impl str>::split_once$', m_str_split_once), P(r'impl str>::strip_prefix$', m_strip_prefix), P(r'impl str>::strip_suffix$', m_strip_suffix),
+        P(r'impl str>::trim_start$', m_trim_start), P(r'impl str>::trim_end$', m_trim_end), P(r'impl str>::trim$', m_trim2),
+        P(r'impl str>::to_uppercase$|impl str>::to_ascii_uppercase$', m_to_case(True)), P(r'impl str>::to_lowercase$|impl str>::to_ascii_lowercase$', m_to_case(False)),
+        P(r'impl str>::split_whitespace$', m_split_whitespace), P(r'impl str>::lines$', m_lines), P(r'impl str>::char_indices$', m_char_indices),
+        P(r'impl str>::get$', m_str_get_range), P(r'impl char>::len_utf8$', m_char_len_utf8),
+        P(r'impl char>::is_ascii_digit$|impl char>::is_numeric$', m_char_pred(lambda ch: ch.isdigit())), P(r'impl char>::is_whitespace$|impl char>::is_ascii_whitespace$', m_char_pred(lambda ch: ch.isspace())),
+        P(r'impl char>::is_alphanumeric$|impl char>::is_ascii_alphanumeric$', m_char_pred(lambda ch: ch.isalnum())), P(r'impl char>::is_alphabetic$|impl char>::is_ascii_alphabetic$', m_char_pred(lambda ch: ch.isalpha())), P(r'as (std::io::)?Write>::write_all$', m_write_all), P(r'as (std::io::)?Read>::read_exact$', m_read_exact), P(r' as IntoFuture>::into_future$', m_into_future),
     ] + ip.pattern_models
     ip.pattern_models = ip.pattern_models + [(re.compile(r' as Clone>::clone$'), m_clone_generic)]
 
